@@ -111,7 +111,7 @@ fn compare(env: &Env, rq: &Req, views: &[DocView], engine: &BTreeSet<String>) ->
 
 /// Root-cause classification by defect emulation: the smallest set of hypothesised defects under
 /// which the oracle agrees with the engine. Empty vec = cannot be attributed.
-fn classify(sch: &Sch, an: &Analyzers, rq: &Req, views: &[DocView], engine: &BTreeSet<String>) -> Vec<&'static str> {
+fn classify(sch: &Sch, an: &Analyzers, rq: &Req, views: &[DocView], engine: &BTreeSet<String>, reader: &searchlite_core::api::IndexReader) -> Vec<&'static str> {
   let combos: [(bool, bool, bool); 7] = [
     (false, false, true),
     (true, false, false),
@@ -121,7 +121,21 @@ fn classify(sch: &Sch, an: &Analyzers, rq: &Req, views: &[DocView], engine: &BTr
     (true, true, false),
     (true, true, true),
   ];
-  let has_collapse = rq.q.any(&|n| n.collapses(sch, an));
+  let mut has_collapse = rq.q.any(&|n| n.collapses(sch, an));
+  if has_collapse && !rq.q.any(&|n| matches!(n, Q::Wildcard { .. }) && n.collapses(sch, an)) {
+    // only regex nodes collapse: D2 and D3 can produce the same hit set (`rust?` -> exact `rust` vs
+    // candidates restricted to prefix `rust`). Ask the engine again with collapse-proof patterns; if
+    // nothing changes the collapse is not what we are looking at.
+    let mut probe = rq.clone();
+    probe.q = rq.q.collapse_proof(sch, an);
+    if probe.q != rq.q {
+      if let Ok((res, _)) = run_engine(reader, &probe) {
+        if res == *engine {
+          has_collapse = false;
+        }
+      }
+    }
+  }
   let has_overreach = rq.q.any(&|n| n.prefix_overreach(sch, an, false) || n.prefix_overreach(sch, an, true));
   for (d2, d3, d1) in combos {
     if (d2 && !has_collapse) || (d3 && !has_overreach) {
@@ -177,7 +191,7 @@ fn recheck(dir: &Path, c: &Case, rq: &Req) -> Option<(Vec<&'static str>, Outcome
   if o.missing.is_empty() && o.unexpected.is_empty() {
     return None;
   }
-  Some((classify(c.sch, c.an, rq, &views, &engine), o))
+  Some((classify(c.sch, c.an, rq, &views, &engine, &reader), o))
 }
 
 fn minimise(dir: &Path, sch: &Sch, an: &Analyzers, hist: &Hist, rq: &Req, sigs: &[&'static str]) -> (Hist, Req) {
@@ -384,7 +398,7 @@ fn main() {
       if o.missing.is_empty() && o.unexpected.is_empty() {
         continue;
       }
-      let sigs = classify(&sch, &an, rq, &views, &engine);
+      let sigs = classify(&sch, &an, rq, &views, &engine, &reader);
       if sigs.is_empty() {
         let sig = format!(
           "unclassified:{}:{}{}",
